@@ -456,7 +456,9 @@ func (r *Resolver) onStructLike(g *Scope, name string, t *parser.Type, v *parser
 				// a trick to create pointers without temporary variables
 				val = fmt.Sprintf("(&struct{x %s}{%s}).x", typ, val)
 			}
-			if !strings.HasPrefix(val, "&") {
+			// a struct-like value is already a pointer: either a literal
+			// "&T{...}" or the name of a constant, which is a *T variable
+			if !strings.HasPrefix(val, "&") && !f.Type.Category.IsStructLike() {
 				val = "&" + val
 			}
 		}
